@@ -3,8 +3,12 @@ use crate::css::{Value, is_not};
 use crate::input::SourcePos;
 use crate::{Scope, ScopeRef};
 use std::collections::BTreeMap;
+#[cfg(not(kaj_rsass_verif))]
 use std::sync::{Arc, LazyLock};
 use std::{cmp, fmt};
+
+#[cfg(kaj_rsass_verif)]
+use rsass_verif_sync::{Arc, LazyLock};
 
 #[macro_use]
 mod macros;
